@@ -10,7 +10,7 @@ use binrw::BinRead;
 use binrw::BinReaderExt;
 use binrw::{BinWrite, BinWriterExt, binrw};
 
-use crate::common_file_operations::{read_bool_from, write_bool_as};
+use crate::common_file_operations::{read_bool_from, read_counted_bytes, write_bool_as};
 use crate::model_vertex_declarations::{
     VERTEX_ELEMENT_SIZE, VertexDeclaration, VertexType, VertexUsage, vertex_element_parser,
     vertex_element_writer,
@@ -89,7 +89,7 @@ pub struct ModelHeader {
     string_count: u16,
     string_size: u32,
 
-    #[br(count = string_size)]
+    #[br(parse_with = read_counted_bytes, args(string_size as u64))]
     strings: Vec<u8>,
 
     radius: f32,
@@ -667,8 +667,8 @@ impl MDL {
                     .ok()?;
 
                 // TODO: optimize!
-                let mut indices: Vec<u16> =
-                    Vec::with_capacity(model.meshes[j as usize].index_count as usize);
+                // not pre-sized: the count is a 32-bit value from the file
+                let mut indices: Vec<u16> = Vec::new();
                 for _ in 0..model.meshes[j as usize].index_count {
                     indices.push(cursor.read_le::<u16>().ok()?);
                 }
